@@ -477,7 +477,10 @@ type tableGen struct {
 	victims []int
 	length  int
 	small   []int // pool indices of a distance class with exactly 3, 4 or 5 ids (the 5-failures rule at the bucketSize/4 boundary)
-	focus   int   // pool index of a node that gets bursts of track requests (failures with a success in between); 0 = none
+	credit  int   // pool index of an entry that is revalidated repeatedly: answered pings build up credit, then unanswered ones; 0 = none
+	alive   int   // credit scenario: answered pings still to deliver before the unanswered ones
+	dead    int
+	focus   int // pool index of a node that gets bursts of track requests (failures with a success in between); 0 = none
 }
 
 var tableSeqs = []int{0, 1, 1, 2, 3, 5}
@@ -602,6 +605,63 @@ func (g *tableGen) next(step int, s portalwire.VerifSnapshot) (tableOp, bool) {
 			ok := r.Intn(15) == 0
 			g.c.Count(fmt.Sprintf("small_track_k%d_ok%v", len(g.small), ok))
 			return tableOp{kind: 'T', n: n, flag: ok, picks: []int{pick()}}, true
+		}
+	}
+	if g.credit > 0 && r.Intn(100) < 55 {
+		// the liveness-credit scenario: the same entry answers several pings in a row (credit 3, 4, 5, ..), then stops
+		// answering: the credit must go c -> c/3 -> .. -> 0 and the entry must leave at 0
+		var ce *portalwire.VerifEntry
+		for _, b := range s.Buckets {
+			for i := range b.Entries {
+				if h.index[b.Entries[i].ID] == g.credit {
+					ce = &b.Entries[i]
+				}
+			}
+		}
+		inFlight := false
+		var startSeq uint64
+		for _, a := range s.Active {
+			if h.index[a.ID] == g.credit && a.Attached {
+				inFlight, startSeq = true, a.StartSeq
+			}
+		}
+		switch {
+		case ce == nil:
+			if r.Intn(2) == 0 {
+				g.c.Count("credit_add")
+				return tableOp{kind: 'F', n: tblNode{idx: g.credit, seq: 1, hasIP: true, ip: [4]byte{10, 0, 3, 9}, port: 30303}, flag: r.Intn(2) == 0}, true
+			}
+		case inFlight:
+			ok := g.alive > 0
+			if ok {
+				g.alive--
+			} else {
+				g.dead--
+				if g.dead <= 0 {
+					g.alive, g.dead = 3+r.Intn(8), 1+r.Intn(3)
+				}
+			}
+			g.c.Count(fmt.Sprintf("credit_answer_ok%v_credit%d", ok, min(int(ce.Checks), 9)))
+			if r.Intn(2) == 0 {
+				o := tableOp{kind: 'P', idx: g.credit, flag: ok, pingSeq: startSeq, picks: []int{pick()}}
+				if !ok {
+					o.pingSeq = 0
+				}
+				return o, true
+			}
+			return tableOp{kind: 'A', idx: g.credit, flag: ok, picks: []int{pick()}}, true
+		default:
+			// start a revalidation request for exactly this entry: pick its position in the list it is on
+			for i, id := range s.Fast {
+				if h.index[id] == g.credit {
+					return tableOp{kind: 'R', dueFast: true, dueSlow: false, picks: []int{i}}, true
+				}
+			}
+			for i, id := range s.Slow {
+				if h.index[id] == g.credit {
+					return tableOp{kind: 'R', dueFast: false, dueSlow: true, picks: []int{i}}, true
+				}
+			}
 		}
 	}
 	if g.focus > 0 {
@@ -865,6 +925,10 @@ func newTableHist(c *Ctx) (*tableHist, *tableGen) {
 	} else if r.Intn(2) == 0 && len(h.pool) > 2 {
 		g.focus = 1 + r.Intn(2) // the first ids of the pool are in the most populated distance class
 		c.Count("focus_history")
+	}
+	if len(small) == 0 && len(h.pool) > 4 && r.Intn(5) < 2 {
+		g.credit, g.alive, g.dead = 3, 3+r.Intn(3), 2
+		c.Count("credit_history")
 	}
 	c.Count(fmt.Sprintf("pool_shape_%d", shape))
 	c.Count(fmt.Sprintf("ip_mode_%d", g.ipMode))
